@@ -730,30 +730,52 @@ fn run_gop(w: &mut W, cx: &mut Ctx, op: &GOp) {
 }
 
 // ---------- generator ----------
-fn gen_op(r: &mut Prng, w: &W, ops_so_far: usize) -> GOp {
+/// `plan` holds the rest of a macro (onboarding, a faulty month, ...) that was started earlier
+fn gen_op(r: &mut Prng, w: &W, ops_so_far: usize, plan: &mut std::collections::VecDeque<GOp>, rich: bool) -> GOp {
+    if let Some(op) = plan.pop_front() { return op; }
     let nm = w.miners.len();
-    if nm == 0 || (nm < 3 && ops_so_far > 2 && r.chance(4)) {
+    if nm == 0 || (nm < 3 && ops_so_far > 2 && r.chance(5)) {
         let used: Vec<usize> = w.miners.iter().map(|m| m.k).collect();
         let k = (0..3).find(|k| !used.contains(k)).unwrap_or(0);
-        return GOp::Create { k, extra: if r.chance(94) { r.range(0, 3000) } else { -1 } };
+        if rich {
+            // enough sectors that the pledge total outweighs the creation deposits (the miner survives F1)
+            let cnt = 34 + r.below(10) as usize;
+            plan.push_back(GOp::PreCommit { m: nm, count: cnt });
+            plan.push_back(GOp::Jump { epochs: 151 + r.range(0, 30), tick: r.chance(50) });
+            plan.push_back(GOp::ProveCommit { m: nm, n: cnt });
+        }
+        return GOp::Create { k, extra: if r.chance(95) { if rich { r.range(1500, 6000) } else { r.range(0, 3000) } } else { -1 } };
     }
     let m = r.below(nm as u64) as usize;
     let mh = &w.miners[m];
     let e = w.v.epoch();
     let ready = mh.pending.iter().take_while(|(_, pe)| e > pe + 150).count();
     match r.below(100) {
-        0..=13 => GOp::PreCommit { m, count: 1 + r.below(3) as usize },
-        14..=27 if ready > 0 => GOp::ProveCommit { m, n: 1 + r.below(ready as u64) as usize },
-        14..=19 if !mh.pending.is_empty() => GOp::Jump { epochs: 151 + r.range(0, 40), tick: r.chance(50) },
-        20..=27 => GOp::Fund { m, fil: r.range(1, 500) },
-        28..=39 => GOp::Award { m, penalty: if r.chance(65) { 0 } else if r.chance(70) { r.below(1 << 58) as i128 } else { (r.below(1 << 62) as i128) << 4 }, gas: r.below(1 << 50) as i128, wins: r.range(0, 3) },
-        40..=51 => GOp::Withdraw { m, stranger: r.chance(8), fil: if r.chance(75) { r.range(0, 40) } else { 1_000_000 } },
-        52..=59 => GOp::Jump { epochs: *r.pick(&[5i64, 30, 120, 600, 1500, DAY, DAY + 77, 2 * DAY, 5 * DAY, 40 * DAY, 100 * DAY, 215 * DAY]), tick: r.chance(85) },
-        60..=73 => GOp::Deadlines { m, n: *r.pick(&[1usize, 1, 2, 3, 6, 12, 24, 48, 49, 60]), post: r.chance(70) },
-        74..=81 => GOp::Terminate { m, pick: r.below(8) as usize, n: 1 + r.below(3) as usize },
-        82..=85 => GOp::RepayDebt { m },
-        86..=89 => GOp::ReportFault { m },
-        90..=94 => GOp::Post { m },
+        0..=9 => {
+            let count = 1 + r.below(4) as usize;
+            if r.chance(60) {
+                plan.push_back(GOp::Jump { epochs: 151 + r.range(0, 60), tick: r.chance(50) });
+                plan.push_back(GOp::ProveCommit { m, n: if r.chance(70) { count } else { 1 } });
+            }
+            GOp::PreCommit { m, count }
+        }
+        10..=19 if ready > 0 => GOp::ProveCommit { m, n: 1 + r.below(ready as u64) as usize },
+        10..=13 if !mh.pending.is_empty() => GOp::Jump { epochs: 151 + r.range(0, 40), tick: r.chance(50) },
+        14..=19 => GOp::Fund { m, fil: r.range(1, 500) },
+        20..=31 => GOp::Award { m, penalty: if r.chance(60) { 0 } else if r.chance(70) { r.below(1 << 58) as i128 } else { (r.below(1 << 62) as i128) << 4 }, gas: r.below(1 << 50) as i128, wins: if r.chance(95) { r.range(1, 3) } else { 0 } },
+        32..=43 => GOp::Withdraw { m, stranger: r.chance(8), fil: if r.chance(75) { r.range(0, 40) } else { 1_000_000 } },
+        44..=51 => GOp::Jump { epochs: *r.pick(&[5i64, 30, 120, 600, 1500, DAY, DAY + 77, 2 * DAY, 5 * DAY, 31 * DAY, 43 * DAY, 100 * DAY, 215 * DAY]), tick: r.chance(85) },
+        52..=63 => GOp::Deadlines { m, n: *r.pick(&[1usize, 1, 2, 3, 6, 12, 24, 48, 49]), post: r.chance(75) },
+        64..=67 => {
+            // a long stretch: jump, then walk through a whole proving period so that every deadline is
+            // processed (faults detected / expirations popped)
+            plan.push_back(GOp::Deadlines { m, n: 49, post: r.chance(50) });
+            GOp::Jump { epochs: *r.pick(&[31 * DAY, 43 * DAY, 215 * DAY, 100 * DAY]), tick: true }
+        }
+        68..=79 => GOp::Terminate { m, pick: r.below(50) as usize, n: 1 + r.below(4) as usize },
+        80..=83 => GOp::RepayDebt { m },
+        84..=88 => GOp::ReportFault { m },
+        89..=94 => GOp::Post { m },
         _ => GOp::Jump { epochs: r.range(1, 20), tick: true },
     }
 }
@@ -771,8 +793,10 @@ fn run_case(gc: &GCase, stats: &mut Stats, genr: Option<(&mut Prng, usize)>) -> 
     let mut cx = Ctx { steps: vec![], fails: vec![], seen: BTreeSet::new(), stats, done: vec![], sectors_max: gc.sectors_max, accepted: false, rejected: false };
     let mut genr = genr;
     let n = match &genr { Some((_, n)) => *n, None => gc.ops.len() };
+    let mut plan = std::collections::VecDeque::new();
+    let rich = match &mut genr { Some((r, _)) => r.chance(60), None => false };
     for i in 0..n {
-        let op = match &mut genr { Some((r, _)) => gen_op(r, &w, i), None => gc.ops[i].clone() };
+        let op = match &mut genr { Some((r, _)) => gen_op(r, &w, i, &mut plan, rich), None => gc.ops[i].clone() };
         cx.done.push(op.clone());
         run_gop(&mut w, &mut cx, &op);
         if cx.steps.len() > 600 { break; }
